@@ -87,6 +87,35 @@ func init() {
 		}
 		return mkstr(r)
 	})
+	byteFrom := func(fr *frame, name string, alpha string) value {
+		i := fr.i
+		t := i.newInput(name, "u8", bvSort(8))
+		c := i.ts.tFalse
+		for k := 0; k < len(alpha); k++ {
+			c = i.ts.Or(c, i.ts.Eq(t, i.ts.BV(uint64(alpha[k]), 8)))
+		}
+		i.path.addPC(c)
+		return &sym{t}
+	}
+	reg("ByteFrom", func(fr *frame, a []value) value {
+		return byteFrom(fr, strArg(a[0]), strArg(a[1]))
+	})
+	reg("StringFrom", func(fr *frame, a []value) value {
+		n := int(asInt64(a[1]))
+		r := make([]value, n)
+		for k := range r {
+			r[k] = byteFrom(fr, fmt.Sprintf("%s[%d]", strArg(a[0]), k), strArg(a[2]))
+		}
+		return mkstr(r)
+	})
+	reg("IntRange", func(fr *frame, a []value) value {
+		i := fr.i
+		t := i.newInput(strArg(a[0]), "i64", bvSort(64))
+		lo, hi := asInt64(a[1]), asInt64(a[2])
+		i.path.addPC(i.ts.bvCmp("bvsle", i.ts.BV(uint64(lo), 64), t))
+		i.path.addPC(i.ts.bvCmp("bvsle", t, i.ts.BV(uint64(hi), 64)))
+		return &sym{t}
+	})
 	reg("Choice", func(fr *frame, a []value) value {
 		n := int(asInt64(a[1]))
 		k := fr.i.choice(n, strArg(a[0]))
